@@ -4,6 +4,7 @@ import Driver.Ring
 import Driver.Loss
 import Driver.Xor
 import Driver.Pipe
+import Driver.Nat
 
 def main (args : List String) : IO UInt32 := do
   match args with
@@ -13,4 +14,5 @@ def main (args : List String) : IO UInt32 := do
   | ["xor"] => Driver.runComponent Driver.Xor.comp; return 0
   | ["bridge"] => Driver.runComponent Driver.Pipe.bridge; return 0
   | ["dpipe"] => Driver.runComponent Driver.Pipe.dpipe; return 0
+  | ["nat", mode] => Driver.runComponent (Driver.Nat.comp mode); return 0
   | _ => IO.eprintln "usage: vdrv <component> [args]"; return 2
